@@ -8,6 +8,7 @@ import (
 	"fmt"
 	"io"
 	"net"
+	"os"
 	"testing"
 
 	"github.com/sirupsen/logrus"
@@ -195,6 +196,11 @@ func c18PFRunB(c c18PFB, v *vlib.Verdict) {
 	enc := []byte{byte(base.Net), byte(base.Fwd), byte(len(text) >> 8), byte(len(text))}
 	enc = append(enc, text...)
 	in := wire.Mutate(enc, []wire.Field{{Off: 0, Width: 1}, {Off: 1, Width: 1}, {Off: 2, Width: 2}, {Off: 2, Width: 2}}, c.Muts, 0)
+	c18PFBytesB(in, v)
+}
+
+// c18PFBytesB: decode -> encode -> decode on raw bytes.
+func c18PFBytesB(in []byte, v *vlib.Verdict) {
 	st := &wire.Stream{Data: in}
 	var a1 net.Addr
 	var f1 byte
@@ -252,4 +258,25 @@ func TestVerifC18PortForwardDecEncDec(t *testing.T) {
 		c.Muts = wire.GenMuts(t, 0, 3)
 		return c
 	}})
+}
+
+// FuzzVerifC18PFPacket: native fuzzing of the port-forward request decode ->
+// encode -> decode oracle (only does work when VERIF_FUZZ is set).
+func FuzzVerifC18PFPacket(f *testing.F) {
+	if os.Getenv("VERIF_FUZZ") == "" {
+		f.Skip("native fuzzing runs in the thorough tier only")
+	}
+	for _, a := range c18RawAddrs {
+		f.Add(append([]byte{PfTCP, PfLocal, byte(len(a) >> 8), byte(len(a))}, a...))
+	}
+	f.Add(append([]byte{PfUNIX, PfRemote, 0, 6}, "/tmp/s"...))
+	f.Fuzz(func(t *testing.T, in []byte) {
+		var v vlib.Verdict
+		c18PFBytesB(in, &v)
+		for _, vi := range v.Violations {
+			if !vlib.KnownOpen(vi.Sig) {
+				t.Fatalf("VERIF-VIOLATION sig=%s detail=%s", vi.Sig, vi.Detail)
+			}
+		}
+	})
 }
